@@ -28,7 +28,9 @@ ReadH(h, file, mem) ==
                                 ELSE (IF file \in ValidFiles THEN "live" ELSE "null")]
     /\ Op([f |-> IF mem THEN "read_mem" ELSE "read", h |-> h, file |-> file])
 OnLive(h, name, arg) == hs[h] = "live" /\ Stay /\ Op([f |-> name, h |-> h, arg |-> arg])
-FitH(h, good) == hs[h] \in {"live", "live-empty"} /\ hs' = [hs EXCEPT ![h] = IF good THEN "live" ELSE hs[h]] /\ Op([f |-> "glamfit", h |-> h, arg |-> IF good THEN 1 ELSE 0])
+\* fit requests: 0 disordered knots (refused), 1 consistent, 2 a monotonic dimension the data do not have (refused),
+\* 3 consistent with dimension 0 monotonic
+FitH(h, kind) == hs[h] \in {"live", "live-empty"} /\ hs' = [hs EXCEPT ![h] = IF kind \in {1, 3} THEN "live" ELSE hs[h]] /\ Op([f |-> "glamfit", h |-> h, arg |-> kind])
 
 Next ==
     /\ Len(hist) < Depth
@@ -38,7 +40,7 @@ Next ==
           \/ \E a \in 0 .. 3 : OnLive(h, "write", a) \/ OnLive(h, "write_mem", a) \/ OnLive(h, "get_key", a) \/ OnLive(h, "read_key", a)
                                  \/ OnLive(h, "write_key", a) \/ OnLive(h, "accessors", a) \/ OnLive(h, "eval", a)
                                  \/ OnLive(h, "grideval", a) \/ OnLive(h, "permute", a) \/ OnLive(h, "convolve", a)
-          \/ \E g \in BOOLEAN : FitH(h, g)
+          \/ \E g \in 0 .. 3 : FitH(h, g)
 Spec == Init /\ [][Next]_vars
 TypeOK == \A h \in Handles : hs[h] \in {"null", "live-empty", "live"}
 Emit == Len(hist) = Depth => PrintT(ToJson(hist))
